@@ -149,66 +149,94 @@ func runSolver(ctx context.Context, sd solverDef, script string, timeoutMs int) 
 	return
 }
 
-// solve races the solvers on one obligation.
+// solve races solver x script-variant combinations on one obligation. Variants withhold
+// definitions of opaque spec functions (weaker hypotheses), so unsat from any combination
+// is a proof; sat / models are taken from the full variant only.
 func solve(P *Prog, o *Obligation, timeoutMs int, all bool) *Result {
 	full := o.script(P, true)
+	type job struct {
+		sd      solverDef
+		script  string
+		variant int
+	}
+	var jobs []job
+	for _, sd := range solvers {
+		jobs = append(jobs, job{sd, full, 0})
+	}
 	if !o.Cover && len(P.usedRec) > 0 && !all {
-		tried := map[string]bool{full: true}
+		seen := map[string]bool{full: true}
 		for _, hide := range []int{2, 1} {
 			sc := o.scriptV(P, true, hide)
-			if tried[sc] {
+			if seen[sc] {
 				continue
 			}
-			tried[sc] = true
-			r := solveScript(sc, timeoutMs/3, false)
-			if r.Verdict == "unsat" {
-				r.Solver += fmt.Sprintf("(hidden-defs:%d)", hide)
-				return r
+			seen[sc] = true
+			for _, sd := range solvers {
+				if sd.name == "cvc5" && hide == 1 {
+					continue
+				}
+				jobs = append(jobs, job{sd, sc, hide})
 			}
 		}
 	}
-	return solveScript(full, timeoutMs, all)
-}
-
-func solveScript(script string, timeoutMs int, all bool) *Result {
 	ctx, cancel := context.WithCancel(context.Background())
 	defer cancel()
 	type ans struct {
 		name, verdict, out string
 		ms                 int64
+		variant            int
 	}
-	ch := make(chan ans, len(solvers))
-	n := 0
-	for _, sd := range solvers {
-		sd := sd
-		n++
+	ch := make(chan ans, len(jobs))
+	for _, jb := range jobs {
+		jb := jb
 		go func() {
-			v, out, ms := runSolver(ctx, sd, script, timeoutMs)
-			ch <- ans{sd.name, v, out, ms}
+			v, out, ms := runSolver(ctx, jb.sd, jb.script, timeoutMs)
+			ch <- ans{jb.sd.name, v, out, ms, jb.variant}
 		}()
 	}
 	res := &Result{Verdict: "unknown", Outputs: map[string]string{}}
 	var verdicts []string
-	for i := 0; i < n; i++ {
+	for i := 0; i < len(jobs); i++ {
 		a := <-ch
-		res.Outputs[a.name] = truncate(a.out, 4000)
-		verdicts = append(verdicts, a.name+"="+a.verdict)
-		if a.verdict == "unsat" || a.verdict == "sat" {
-			if res.Verdict == "unknown" {
-				res.Verdict, res.Solver, res.Ms = a.verdict, a.name, a.ms
-				if a.verdict == "sat" {
-					res.Model = a.out
-				}
-				if !all {
-					cancel()
-					return res
-				}
-			} else if res.Verdict != a.verdict {
+		tag := a.name
+		if a.variant != 0 {
+			tag = fmt.Sprintf("%s(hidden-defs:%d)", a.name, a.variant)
+		}
+		if a.variant == 0 {
+			res.Outputs[a.name] = truncate(a.out, 4000)
+			verdicts = append(verdicts, a.name+"="+a.verdict)
+		}
+		switch {
+		case a.verdict == "unsat":
+			if res.Verdict == "sat" {
 				res.Verdict = "disagree"
 				res.Solver = strings.Join(verdicts, ",")
+				continue
 			}
-		} else if res.Verdict == "unknown" && a.ms > res.Ms {
-			res.Ms = a.ms
+			if res.Verdict != "unsat" {
+				res.Verdict, res.Solver, res.Ms = "unsat", tag, a.ms
+			}
+			if !all {
+				cancel()
+				return res
+			}
+		case a.verdict == "sat" && a.variant == 0:
+			if res.Verdict == "unsat" {
+				res.Verdict = "disagree"
+				res.Solver = strings.Join(verdicts, ",")
+				continue
+			}
+			if res.Verdict == "unknown" {
+				res.Verdict, res.Solver, res.Ms, res.Model = "sat", a.name, a.ms, a.out
+			}
+			if !all {
+				cancel()
+				return res
+			}
+		default:
+			if res.Verdict == "unknown" && a.ms > res.Ms {
+				res.Ms = a.ms
+			}
 		}
 	}
 	if res.Solver == "" {
@@ -227,11 +255,35 @@ func truncate(s string, n int) string {
 func solveAll(P *Prog, obls []*Obligation, timeoutMs int, all bool, workers int) {
 	var wg sync.WaitGroup
 	ch := make(chan *Obligation)
+	var mu sync.Mutex
+	coverDone := map[string]bool{}
 	for w := 0; w < workers; w++ {
 		wg.Add(1)
 		go func() {
 			defer wg.Done()
 			for o := range ch {
+				if o.Cover {
+					// one feasible path per return position is enough; covers get a short budget and
+					// an inconclusive answer counts as feasible
+					mu.Lock()
+					done := coverDone[o.Name]
+					mu.Unlock()
+					if done {
+						o.Result = &Result{Verdict: "skipped", Solver: "-", Outputs: map[string]string{}}
+						continue
+					}
+					ct := timeoutMs
+					if ct > 2500 {
+						ct = 2500
+					}
+					o.Result = solve(P, o, ct, false)
+					if o.Result.Verdict != "unsat" {
+						mu.Lock()
+						coverDone[o.Name] = true
+						mu.Unlock()
+					}
+					continue
+				}
 				o.Result = solve(P, o, timeoutMs, all)
 			}
 		}()
